@@ -44,6 +44,13 @@ def gen_config(rng, want_error=None):
                 segs[i]["start"] = new_start
                 segs[i]["start_expr"] = "segments.s%d.end" % j + (" + %d" % gap if gap else "")
     cfg = {"banks": banks, "segments": segs, "format": rng.choice([None, None, "prg", "bin"]), "output_filename": rng.choice([None, None, "out.dat"]), "entry_stem": "main"}
+    # a bank may also name the default output file explicitly (it then shares that file with the banks that name nothing)
+    if len(banks) >= 2:
+        fmt = cfg["format"] or "bin"
+        default_name = cfg["output_filename"] or "main.%s" % fmt
+        for b in banks:
+            if rng.random() < 0.15:
+                b["filename"] = default_name
     # sized banks: exact, larger (padding), or deliberately wrong
     verdict, files = layout.expected(dict(cfg))
     for b in banks:
